@@ -1,7 +1,7 @@
 (* C06 - A provider failure surfaces as that failure. *)
 From Coq Require Import List Arith Bool.
 Import ListNotations.
-Require Import Sem2 Safe Live Fault Term GenU GenSound.
+Require Import Sem2 Safe Live Fault Term GenU GenSound Finite.
 
 (* For EVERY thread program (no well-formedness needed) and every run without caller cancellation: an error
    returned by the injector is the error of a provider that really failed, or it is the internal context's error
@@ -58,3 +58,9 @@ Proof.
   - intros Re n e Hin H0. apply (failure_is_reported _ _ ls s n e W Re R Hin H0).
 Qed.
 Print Assumptions C06_all_declarations.
+
+(* ... and it gets there: whatever fails and whenever the caller cancels, an execution has at most `bound p` steps besides
+   the caller's cancellations, so the state of C06_terminates in which nothing more can happen is always reached. *)
+Theorem C06_executions_finite : forall p ls s, run p (init p) ls = Some s -> length (filter noncancel ls) <= bound p.
+Proof. exact runs_are_finite. Qed.
+Print Assumptions C06_executions_finite.
